@@ -50,6 +50,12 @@ func init() {
 			src = eagerEOFReaderAt{buf}
 			mode = ""
 		}
+		if mode == "bigsection" {
+			// an io.SectionReader that claims far more bytes than are behind it (an open-ended section of a file):
+			// its Size() is not the length of the archive
+			src = io.NewSectionReader(bytes.NewReader(buf), 0, 1<<62)
+			mode = ""
+		}
 		ar, err := deb.LoadAr(src)
 		if err != nil {
 			return "notar"
